@@ -552,6 +552,39 @@ def run_scenario(sc, res=None, only=None):
                     res.nontrivial()
                 elif p[0] == "conv":
                     res.nontrivial()
+        # the same with a second load through the SAME loader object run to completion from inside
+        # the first conversion (texts without %import only: a loader serves one %import at a time)
+        if sc["kind"] == "config" and not sc.get("packages") and calls and only is None \
+                and "%import" not in "".join(sc["resources"].values()):
+            state = {"done": False}
+
+            def hook(_value):
+                if state["done"]:
+                    return
+                state["done"] = True
+                loader = getattr(R, "cloader", None)
+                if loader is not None:
+                    try:
+                        loader.loadFile(io.StringIO("top zcv-nested\n<s n>\n k 1\n</s>\n"), "file:///zcv/nested/inner.conf")
+                    except Exception:  # noqa
+                        pass
+            for p in [None] + [q for q in points if q[0] != "conv"]:
+                R.fresh_loader()
+                state["done"] = False
+                zdt.HOOK = hook
+                try:
+                    o = R.run(plan=p)
+                finally:
+                    zdt.HOOK = None
+                if res is not None:
+                    res.evaluations += 1
+                    res.count("runs-with-a-nested-load")
+                if p is None and state["done"] and o != base:
+                    out.append(("nested-load-changes-the-outer-load", "fault-free outcome %r, with a nested load %r" % (base[:1], o[:2] if o[0] != "ok" else "ok/different"), None))
+                for l in leaks():
+                    out.append(("leak:with-a-nested-load-through-the-same-loader", "%s ; point %r ; outcome %r" % (l, p, o[:2]), None))
+                if o[0] == "other":
+                    out.append(("unexpected-exception:with-a-nested-load:%s" % o[1], "point %r: %s" % (p, o[2]), None))
     return out
 
 
